@@ -2,12 +2,23 @@ module verif
 
 go 1.23
 
-require github.com/ctessum/geom v0.0.0
+require (
+	github.com/ctessum/geom v0.0.0
+	github.com/paulmach/osm v0.1.1
+)
+
+require (
+	github.com/gogo/protobuf v1.3.1 // indirect
+	github.com/paulmach/orb v0.1.6 // indirect
+	golang.org/x/mod v0.22.0 // indirect
+	golang.org/x/sync v0.10.0 // indirect
+)
 
 require (
 	github.com/ctessum/polyclip-go v1.1.0 // indirect
 	github.com/gonum/floats v0.0.0-20181209220543-c233463c7e82 // indirect
 	github.com/gonum/internal v0.0.0-20181124074243-f884aa714029 // indirect
+	golang.org/x/tools v0.29.0
 	gonum.org/v1/gonum v0.9.3 // indirect
 )
 
